@@ -570,31 +570,41 @@ pub fn parse_rtcp_packets(raw: &[u8], addr: Option<SocketAddr>) -> RtpResult<Vec
     Ok(packets)
 }
 
+/// The RTCP header carries report/source/chunk counts in 5 bits (RFC 3550 §6.4.1).
+fn rtcp_count(len: usize) -> RtpResult<u8> {
+    if len > 0x1F {
+        return Err(RtpError::InvalidRtcp(
+            "too many entries for the 5-bit RTCP count field",
+        ));
+    }
+    Ok(len as u8)
+}
+
 pub fn marshal_rtcp_packets(packets: &[RtcpPacket]) -> RtpResult<Vec<u8>> {
     let mut out = Vec::new();
     for packet in packets {
         match packet {
             RtcpPacket::SenderReport(sr) => write_rtcp_packet(
                 &mut out,
-                sr.report_blocks.len() as u8,
+                rtcp_count(sr.report_blocks.len())?,
                 RTCP_SR,
                 build_sender_report_body(sr)?,
             ),
             RtcpPacket::ReceiverReport(rr) => write_rtcp_packet(
                 &mut out,
-                rr.report_blocks.len() as u8,
+                rtcp_count(rr.report_blocks.len())?,
                 RTCP_RR,
                 build_receiver_report_body(rr)?,
             ),
             RtcpPacket::SourceDescription(sdes) => write_rtcp_packet(
                 &mut out,
-                sdes.chunks.len() as u8,
+                rtcp_count(sdes.chunks.len())?,
                 RTCP_SDES,
-                build_sdes_body(sdes),
+                build_sdes_body(sdes)?,
             ),
             RtcpPacket::Goodbye(bye) => write_rtcp_packet(
                 &mut out,
-                bye.sources.len() as u8,
+                rtcp_count(bye.sources.len())?,
                 RTCP_BYE,
                 build_goodbye_body(bye),
             ),
@@ -616,9 +626,12 @@ pub fn marshal_rtcp_packets(packets: &[RtcpPacket]) -> RtpResult<Vec<u8>> {
             RtcpPacket::RemoteBitrateEstimate(remb) => {
                 write_rtcp_packet(&mut out, RTCP_PSFB_APP, RTCP_PSFB, build_remb_body(remb)?)
             }
-            RtcpPacket::TransportWideCc(twcc) => {
-                write_rtcp_packet(&mut out, RTCP_RTPFB_TWCC, RTCP_RTPFB, build_twcc_body(twcc))
-            }
+            RtcpPacket::TransportWideCc(twcc) => write_rtcp_packet_padded(
+                &mut out,
+                RTCP_RTPFB_TWCC,
+                RTCP_RTPFB,
+                build_twcc_body(twcc),
+            ),
         }
     }
     Ok(out)
@@ -630,6 +643,24 @@ fn write_rtcp_packet(out: &mut Vec<u8>, fmt: u8, packet_type: u8, mut body: Vec<
     }
     let length = ((body.len() + 4) / 4).saturating_sub(1) as u16;
     out.push((RTP_VERSION << 6) | (fmt & 0x1F));
+    out.push(packet_type);
+    out.extend_from_slice(&length.to_be_bytes());
+    out.extend_from_slice(&body);
+}
+
+/// Like `write_rtcp_packet`, but aligns the body with RTCP padding announced by
+/// the P bit (last padding octet = padding length, RFC 3550 §6.4.1) instead of
+/// bare zero octets, so a parser can tell the padding from the body. Needed for
+/// bodies that are opaque byte strings of arbitrary length (transport-wide CC).
+fn write_rtcp_packet_padded(out: &mut Vec<u8>, fmt: u8, packet_type: u8, mut body: Vec<u8>) {
+    let pad = (4 - body.len() % 4) % 4;
+    if pad == 0 {
+        return write_rtcp_packet(out, fmt, packet_type, body);
+    }
+    body.resize(body.len() + pad - 1, 0);
+    body.push(pad as u8);
+    let length = (body.len() / 4) as u16;
+    out.push((RTP_VERSION << 6) | 0x20 | (fmt & 0x1F));
     out.push(packet_type);
     out.extend_from_slice(&length.to_be_bytes());
     out.extend_from_slice(&body);
@@ -939,11 +970,18 @@ fn build_receiver_report_body(rr: &ReceiverReport) -> RtpResult<Vec<u8>> {
     Ok(body)
 }
 
-fn build_sdes_body(sdes: &SourceDescription) -> Vec<u8> {
+fn build_sdes_body(sdes: &SourceDescription) -> RtpResult<Vec<u8>> {
     let mut body = Vec::new();
     for chunk in &sdes.chunks {
         body.extend_from_slice(&chunk.ssrc.to_be_bytes());
         for item in &chunk.items {
+            // The item length is a single octet (RFC 3550 §6.5); a longer text
+            // has no wire form and would desynchronise the item list.
+            if item.text.len() > 0xFF {
+                return Err(RtpError::InvalidRtcp(
+                    "SDES item text longer than 255 bytes",
+                ));
+            }
             body.push(item.ty);
             body.push(item.text.len() as u8);
             body.extend_from_slice(item.text.as_bytes());
@@ -953,7 +991,7 @@ fn build_sdes_body(sdes: &SourceDescription) -> Vec<u8> {
             body.push(0);
         }
     }
-    body
+    Ok(body)
 }
 
 fn build_goodbye_body(bye: &Goodbye) -> Vec<u8> {
